@@ -155,7 +155,12 @@ fn adaptive(b: u64, variant: &str, seed: u64) -> Value {
     let mut net = build(&spec);
     let ip = public_ip(77);
     let mut o = NodeOpts::client(ip, &net.boot);
-    o.nat = variant == "nat";
+    o.nat = variant.starts_with("nat");
+    // "explicit public_ip configurations": the operator states the address, the node is still adaptive (no server_mode) and
+    // must confirm the address the same way before it starts serving
+    if variant.ends_with("public_ip") {
+        o.public_ip = Some(ip);
+    }
     let wrong = variant == "wrong_votes";
     if wrong {
         // every peer reports a wrong (unreachable) address for the node: rewrite the `ip` field of replies to it
@@ -319,8 +324,8 @@ pub fn run(args: &Args) -> i32 {
         out.line(&ro_put_reply(b, v, seed ^ 0x77));
         b += 1;
     }
-    for (i, v) in ["reachable", "nat", "reachable", "nat"].iter().enumerate() {
-        if !thorough && i >= 2 {
+    for (i, v) in ["reachable", "nat", "reachable_public_ip", "nat_public_ip", "reachable", "nat", "reachable_public_ip"].iter().enumerate() {
+        if !thorough && i >= 4 {
             break;
         }
         out.line(&adaptive(b, v, seed ^ (i as u64 * 101)));
